@@ -904,14 +904,16 @@ def case_from_flat(ctx):
     nested_cols = [c[0] for c in flat["cols"]]
     explicit = rng.random() < 0.5
 
+    # the caller's table is nested TWICE: the second nesting sees the table the first one left behind
+    d2 = df.reset_index(names="k") if use_on else NestedFrame(df)
+    before = {"columns": [str(c) for c in d2.columns], "index": export.labels(d2.index)}
+    kw = {"base_columns": ["b0", "b1"], "nested_columns": nested_cols if explicit else None, "name": "n"}
+    if use_on:
+        kw["on"] = "k"
+
     def run():
-        if use_on:
-            d2 = df.reset_index(names="k")
-            r = NestedFrame.from_flat(d2, base_columns=["b0", "b1"], nested_columns=nested_cols if explicit else None, on="k", name="n")
-        else:
-            r = NestedFrame.from_flat(NestedFrame(df), base_columns=["b0", "b1"],
-                                      nested_columns=nested_cols if explicit else None, name="n")
-        return frame_view(r)
+        NestedFrame.from_flat(d2, **kw)
+        return frame_view(NestedFrame.from_flat(d2, **kw))
     real = call_real(run)
     ans = ctx.driver.call("frame.fromFlat", index=labels,
                           base=[["b0", "int64", bvals], ["b1", "double", ["nan" if v is None else {"f": int(2 * v)} for v in bnan]]],
@@ -931,6 +933,9 @@ def case_from_flat(ctx):
         ["n", "nest", {"ty": [[nm, t] for nm, t, _ in flat["cols"]], "rows": rows}]]}
     ctx.case("from_flat", {"labels": labels, "flat": flat, "b0": bvals, "b1": bnan, "on": use_on}, real, norm_frame(ans["model"]),
              {"ok": exp}, features=(kind, f"on={use_on}", f"n={'>16' if n > 16 else n}"), nontrivial=True)
+    after = {"columns": [str(c) for c in d2.columns], "index": export.labels(d2.index)}
+    ctx.case("from_flat.argument_unchanged", {"labels": labels, "on": use_on}, {"ok": after}, None, {"ok": before},
+             features=(kind, f"on={use_on}"), nontrivial=True)
 
 
 def case_from_lists(ctx, s: Subject):
